@@ -34,3 +34,17 @@ Proof. exact update_results_function_of_updates. Qed.
 
 Example C18_nonvacuous_images_equal := Examples.images_equal_by_theorem.
 Example C18_nonvacuous_flags_differ := Examples.flags_differ.
+
+(** AT BYTE LEVEL (Io_det.v): the three FILES that the I/O of the map layer leaves after a history
+    ([Io.images]: the flat files of the byte-level model, compared with the real files byte for
+    byte and event by event) are the same as after the updating calls of that history alone -
+    whatever read-only calls were made in between *)
+From Aby Require Import Load Load_all Refine Refine_all Io Io_base Io_htx Io_run Io_det.
+Theorem C18_byte_level_files_function_of_updates : forall s sp m ops s' outs,
+  wf_state s -> represents s sp -> simg s m -> Forall (op_wf (kt s)) ops -> sized s ops ->
+  store_run s ops = Ok (s', outs) ->
+  exists m' m'' outs'',
+    io_run m ops = Ok (m', outs) /\
+    io_run m (List.filter is_update ops) = Ok (m'', outs'') /\
+    Io.images m' = Io.images m''.
+Proof. exact byte_level_images_function_of_updates. Qed.
